@@ -228,7 +228,13 @@ class ImageWriter:
             data = image.stream.get_data()
             i = 0
             for y in range(height):
-                bmp.write_line(y, data[i : i + bytes_per_line])
+                line = data[i : i + bytes_per_line]
+                if bits == 24:
+                    # BMP stores the components of a pixel as blue, green, red
+                    rgb = bytearray(line[: len(line) - len(line) % 3])
+                    rgb[0::3], rgb[2::3] = rgb[2::3], rgb[0::3]
+                    line = bytes(rgb)
+                bmp.write_line(y, line)
                 i += bytes_per_line
         return name
 
